@@ -37,14 +37,14 @@ type hfState struct {
 	received   map[[32]byte]bool
 	discarded  map[[32]byte]bool
 	cached     []*hfEntry
-	lastHeader uint32 // height of the highest announced header (LastCommitedHeader)
+	lch        *chain.BlockTreeNode // network.LastCommitedHeader: the best known header (a node, not a height: it moves BACK when that block is discarded)
 	highestAcc uint32
 }
 
 func (e *Env) hfs() *hfState {
 	if e.hf == nil {
 		_, h := e.Tip()
-		e.hf = &hfState{toGet: map[[32]byte]*hfEntry{}, received: map[[32]byte]bool{}, discarded: map[[32]byte]bool{}, lastHeader: h, highestAcc: h}
+		e.hf = &hfState{toGet: map[[32]byte]*hfEntry{}, received: map[[32]byte]bool{}, discarded: map[[32]byte]bool{}, lch: e.Ch.LastBlock(), highestAcc: h}
 	}
 	return e.hf
 }
@@ -79,8 +79,8 @@ func (e *Env) Announce(hdr []byte) string {
 	}
 	node := e.Ch.AcceptHeader(bl)
 	s.toGet[bl.Hash.Hash] = &hfEntry{bl: bl, node: node}
-	if node.Height > s.lastHeader {
-		s.lastHeader = node.Height
+	if node.Height > s.lch.Height {
+		s.lch = node
 	}
 	return "ok"
 }
@@ -109,6 +109,9 @@ func (e *Env) DeliverData(raw []byte) (res string, drained []Drain) {
 	if er := e.Ch.PostCheckBlock(ent.bl); er != nil {
 		if ent.bl.MerkleRootMatch() && !strings.Contains(er.Error(), "RPC_Result:bad-witness-nonce-size") {
 			delete(s.toGet, hash)
+			if ent.node == s.lch {
+				s.lch = s.lch.Parent
+			}
 			e.Ch.DeleteBranch(ent.node, func(h *btc.Uint256) { delete(s.toGet, h.Hash) })
 		} else {
 			ent.bl.Raw = prev
@@ -152,6 +155,9 @@ func (s *hfState) parentDiscarded(n *chain.BlockTreeNode) bool {
 }
 
 func (s *hfState) discard(n *chain.BlockTreeNode) {
+	if s.lch == n {
+		s.lch = n.Parent
+	}
 	for _, c := range n.Childs {
 		s.discard(c)
 	}
@@ -170,9 +176,12 @@ func (e *Env) localAccept(ent *hfEntry) string {
 	bl := ent.bl
 	e.Ch.Unspent.AbortWriting()
 	e.Ch.Blocks.BlockAdd(ent.node.Height, bl)
-	bl.LastKnownHeight = s.lastHeader
+	bl.LastKnownHeight = s.lch.Height
 	if err := e.Ch.CommitBlock(bl, ent.node); err != nil {
 		s.discard(ent.node)
+		if last := e.Ch.LastBlock(); last.Height > s.lch.Height {
+			s.lch, _ = last.FindFarthestNode()
+		}
 		return "refused: accept: " + err.Error()
 	}
 	if bl.Height > s.highestAcc {
